@@ -109,7 +109,61 @@ class LibMixin:
             r = h(self, e, path, kind)
             if r is not None:
                 return r
+        if kind == "list" and len(e.generators) == 1 and all(self.is_pure_expr(c) for c in e.generators[0].ifs) \
+                and self.is_pure_expr(e.elt):
+            return self.filter_comprehension(e, path)
         raise Unsupported(f"{kind} comprehension over a symbolic sequence with filter / several generators", e)
+
+    def filter_comprehension(self, e, path):
+        """[f(x) for x in xs if P(x)] over a symbolic sequence: the result is xs filtered by P in order.
+        Axiomatised by a position function pos (result index -> source index, strictly increasing, onto the
+        elements satisfying P)."""
+        gen = e.generators[0]
+        seq = self.as_sequence(self.eval(gen.iter, path), path, e)
+        env0 = dict(path.env)
+        tag = sv.uid("flt")
+        pos = z3.Function(tag + ".pos", sv.IntS, sv.IntS)
+        inv = z3.Function(tag + ".inv", sv.IntS, sv.IntS)
+        n = z3.Int(tag + ".len")
+
+        def at_src(j, what):
+            p = path.clone()
+            p.env = dict(env0)
+            self.silent += 1
+            try:
+                self.assign(gen.target, seq.at(j), p)
+                if what == "elt":
+                    return self.eval(e.elt, p)
+                return sv.And(*[self.truthy(self.eval(c, p), p) for c in gen.ifs])
+            finally:
+                self.silent -= 1
+
+        # safety obligations of filter and element expression at a generic source index
+        jj = z3.Int(sv.uid("fj"))
+        saved = dict(path.env)
+        path.guards.append(sv.And(0 <= jj, jj < seq.n))
+        try:
+            self.assign(gen.target, seq.at(jj), path)
+            conds = [self.truthy(self.eval(c, path), path) for c in gen.ifs]
+            path.guards.append(sv.And(*conds))
+            try:
+                self.eval(e.elt, path)
+            finally:
+                path.guards.pop()
+        finally:
+            path.guards.pop()
+            path.env = saved
+        i, i2, j = z3.Ints(f"{tag}.i {tag}.i2 {tag}.j")
+        path.assume(sv.And(0 <= n, n <= seq.n))
+        path.assume(z3.ForAll([i], sv.Implies(sv.And(0 <= i, i < n), sv.And(0 <= pos(i), pos(i) < seq.n, at_src(pos(i), "if"))),
+                              patterns=[pos(i)]))
+        path.assume(z3.ForAll([i, i2], sv.Implies(sv.And(0 <= i, i < i2, i2 < n), pos(i) < pos(i2)),
+                              patterns=[z3.MultiPattern(pos(i), pos(i2))]))
+        path.assume(z3.ForAll([j], sv.Implies(sv.And(0 <= j, j < seq.n, at_src(j, "if")),
+                                              sv.And(0 <= inv(j), inv(j) < n, pos(inv(j)) == j)), patterns=[inv(j)]))
+        res = sv.SList(n, lambda k: at_src(pos(k), "elt"), fresh=True)
+        res.filter_of = (seq, pos, inv, lambda j: at_src(j, "if"))
+        return res
 
     def lib_kwargs(self, v, path, node):
         if isinstance(v, sv.SPy) and v.what == "kwargs":
@@ -142,7 +196,40 @@ class LibMixin:
             r = h(self, base, kwargs, lvalue, path, node)
             if r is not None:
                 return r
-        raise Unsupported("list.sort", node)
+        keyf = kwargs.get("key")
+        if kwargs.get("reverse") is not None:
+            raise Unsupported("list.sort(reverse=...)", node)
+        tag = sv.uid("sort")
+        perm = z3.Function(tag + ".perm", sv.IntS, sv.IntS)   # result index -> original index
+        pinv = z3.Function(tag + ".inv", sv.IntS, sv.IntS)
+        n = base.n
+
+        def key_of(v):
+            if keyf is None:
+                return v
+            self.silent += 1
+            try:
+                return self.call_value(keyf, [v], {}, path.clone(), node)
+            finally:
+                self.silent -= 1
+
+        # the key function must be applicable to every element (safety at a generic index)
+        if keyf is not None:
+            jj = z3.Int(sv.uid("sj"))
+            path.guards.append(sv.And(0 <= jj, jj < n))
+            try:
+                self.call_value(keyf, [base.at(jj)], {}, path, node)
+            finally:
+                path.guards.pop()
+        res = sv.SList(n, lambda i, base=base: base.at(perm(i)), base.fresh)
+        i, i2, j = z3.Ints(f"{tag}.i {tag}.i2 {tag}.j")
+        path.assume(z3.ForAll([i], sv.Implies(sv.And(0 <= i, i < n), sv.And(0 <= perm(i), perm(i) < n, pinv(perm(i)) == i)), patterns=[perm(i)]))
+        path.assume(z3.ForAll([j], sv.Implies(sv.And(0 <= j, j < n), sv.And(0 <= pinv(j), pinv(j) < n, perm(pinv(j)) == j)), patterns=[pinv(j)]))
+        le = self.compare(ast.LtE(), key_of(res.at(i)), key_of(res.at(i2)), path, node)
+        path.assume(z3.ForAll([i, i2], sv.Implies(sv.And(0 <= i, i < i2, i2 < n), le), patterns=[z3.MultiPattern(perm(i), perm(i2))]))
+        res.sorted_of = (base, perm, pinv)
+        self.assign(lvalue, res, path)
+        return sv.NONE
 
     def lib_getattr(self, base, attr, path, node):
         if isinstance(base, sv.SDelta):
